@@ -103,6 +103,16 @@ def r1_one_rng(ctx):
                  any(x == ('static', 'des::runtime::builder::SIMULATION_LOCK') for x in walk(fb.expr_operand(c.args[0], c.b, 'T')))]
         ctx.check(bool(locks) and any(fb.dominates(c.b, wb) and c.b != wb for c in locks), 'rng-installed-under-lock',
                   'the global RNG is replaced only after the simulation lock was obtained', fb.where(wb))
+    # the net layer's process-wide state (event buffer, module context, globals) is attached by buf_init: only by the holder of the
+    # net-statics guard — a Sim::new on another thread must wait before it can wipe the state of a simulation that is running
+    bi = P.call_sites_of('des::net::runtime::ctx::buf_init')
+    if ctx.floor('sites attaching the net statics (buf_init)', len(bi), 1):
+        for s_ in bi:
+            g = s_.fn
+            lk = [c for c in g.calls() if c.name.split('::')[-1] in ('try_lock', 'lock') and c.args and
+                  any(x[0] == 'static' and str(x[1]).endswith('guard::GUARD') for x in walk(g.expr_operand(c.args[0], c.b, 'T')))]
+            ctx.check(bool(lk) and any(g.dominates(c.b, s_.b) and c.b != s_.b for c in lk), 'net-statics-attached-under-guard',
+                      'the net statics are attached only after the net-statics guard was obtained', s_.where())
     # rng() hands out the static
     fr = P.fns.get(RNG_FN)
     ctx.check(fr is not None and fr in users, 'rng-fn', 'runtime::rng() returns the global simulation RNG', fr.where() if fr else None)
@@ -546,12 +556,11 @@ def r5_identity_counters(ctx):
            % (len(t_fields), len(keyed), n_iter), None, sorted('%s.%s' % (a.split('::')[-1], b) for a, b in t_fields)[:12])
 
 
-def r6_builder_keeps_seed(ctx):
+def r6_builder_keeps_seed(ctx, rule='C04.R6', B='des::runtime::builder::Builder', floor_n=4):
     """the seed given to `Builder::seeded` survives every other option: a by-value setter of the runtime builder returns the builder it
     was given, or a builder whose every field is that builder's field or computed from the setter's own arguments — never a default"""
-    ctx.set_rule('C04.R6')
+    ctx.set_rule(rule)
     P = ctx.P
-    B = 'des::runtime::builder::Builder'
     n = 0
     for k, f in sorted(P.fns.items()):
         if not k.startswith(B + '::') or f.kind not in ('fn', 'assocfn') or f.argc < 1:
@@ -568,7 +577,7 @@ def r6_builder_keeps_seed(ctx):
             if t[0] == 'arg' and t[1] == 1:
                 continue
             bad = None
-            if t[0] == 'agg' and str(t[1]).endswith('Builder::Builder') and len(t) > 3:
+            if t[0] == 'agg' and str(t[1]).replace('adt:', '').startswith(B + '::') and len(t) > 3:
                 for name, comp in zip(t[3], t[2]):
                     from_self = any(x[0] == 'field' and x[2] == name and peel(x[1])[0] == 'arg' and peel(x[1])[1] == 1 for x in walk(comp))
                     from_args = any(x[0] == 'arg' and x[1] != 1 for x in walk(comp))
@@ -580,7 +589,7 @@ def r6_builder_keeps_seed(ctx):
                 bad = ('?', show(t)[:120])
             ctx.check(bad is None, 'setter-keeps-other-options:%s' % k.split('::')[-1], 'a builder option leaves every other option (the RNG seed among them) as it was',
                       f.where(b), bad)
-    ctx.floor('by-value setters of the runtime builder', n, 4)
+    ctx.floor('by-value setters of %s' % B.split('::')[-1], n, floor_n)
 
 
 def run(ctx):
